@@ -268,6 +268,10 @@ impl SvgElement {
 //@ - opt_sv(r) == map_get(old(self).attrs@, key@)
 //@ - final(self).attrs@ == old(self).attrs@.remove(key@) && final(self).name == old(self).name
 //@end
+//@item src/element.rs :: impl SvgElement :: fn set_default_attr
+//@ ensures
+//@ - final(self).attrs@ == (if old(self).attrs@.dom().contains(key@) { old(self).attrs@ } else { old(self).attrs@.insert(key@, value@) }) && final(self).name == old(self).name
+//@end
     /// R-abstract: string splitting (attr_split_cycle, splitn, join)
     #[verifier::external_body]
     pub fn split_compound_attr(value: &str) -> (r: (String, String)) ensures r.0@ == split_x(value@), r.1@ == split_y(value@) { unimplemented!() }
@@ -426,6 +430,13 @@ impl SvgElement {
 //@       ==> sized_w(final(self).name@, final(self).attrs@, adjust_spec(old(self).attrs@["dw"@], size_w(old(self).name@, old(self).attrs@))->Some_0)     @@C09.delta.dw
 //@ - old(self).attrs@.dom().contains("dh"@) && adjust_spec(old(self).attrs@["dh"@], size_h(old(self).name@, old(self).attrs@)) is Some
 //@       ==> sized_h(final(self).name@, final(self).attrs@, adjust_spec(old(self).attrs@["dh"@], size_h(old(self).name@, old(self).attrs@))->Some_0)     @@C09.delta.dh
+//@ - old(self).name@ != "circle"@ && old(self).attrs@.dom().contains("dw"@) && !old(self).attrs@.dom().contains("dh"@)
+//@       ==> size_h(final(self).name@, final(self).attrs@) == size_h(old(self).name@, old(self).attrs@)     @@C11.delta.dw_changes_width_only @@C09.delta.dw_changes_width_only
+//@ - old(self).name@ != "circle"@ && old(self).attrs@.dom().contains("dh"@) && !old(self).attrs@.dom().contains("dw"@)
+//@       ==> size_w(final(self).name@, final(self).attrs@) == size_w(old(self).name@, old(self).attrs@)     @@C11.delta.dh_changes_height_only @@C09.delta.dh_changes_height_only
+//@ - old(self).name@ != "circle"@ && old(self).attrs@.dom().contains("dw"@) && old(self).attrs@.dom().contains("dh"@)
+//@       && adjust_spec(old(self).attrs@["dw"@], size_w(old(self).name@, old(self).attrs@)) is Some && adjust_spec(old(self).attrs@["dh"@], size_h(old(self).name@, old(self).attrs@)) is Some
+//@       ==> sized_w(final(self).name@, final(self).attrs@, adjust_spec(old(self).attrs@["dw"@], size_w(old(self).name@, old(self).attrs@))->Some_0)     @@C11.delta.both @@C09.delta.both
 //@ - forall|k: Seq<char>| k != "dw"@ && k != "dh"@ && k != "width"@ && k != "height"@ && k != "r"@ && k != "rx"@ && k != "ry"@ ==> map_get(final(self).attrs@, k) == map_get(old(self).attrs@, k)     @@C09.delta.frame
 //@ - final(self).attrs@.dom().contains("wh"@) == old(self).attrs@.dom().contains("wh"@) && final(self).attrs@.dom().contains("dwh"@) == old(self).attrs@.dom().contains("dwh"@)     @@C09.delta.frame
 //@ - !old(self).attrs@.dom().contains("dw"@) && !old(self).attrs@.dom().contains("dh"@) ==> final(self).attrs@ == old(self).attrs@     @@C09.delta.frame
